@@ -28,7 +28,7 @@ var ev = kit.Ev("C04")
 func init() {
 	ev.Rule("two real endpoints (client and server Authenticator, both with encryption REQUIRED) talk through a frame-aware man-in-the-middle relay; handshake shapes: no authentication, CLAIMTOBE, TOKEN, FS, resumed session, CLAIMTOBE with encryption only OPTIONAL / PREFERRED (it still ends on); " +
 		"a baseline run records the cleartext frames per direction; mutations addressed as (direction, frame index, byte offset incl. header, substitute in {^0x01, ^0x80, 0x00, 'A'}) for EVERY offset of every cleartext frame, the end-flag byte of every frame additionally set to 9 (thorough: all 256) values and every length byte moved by +-1, " +
-		"plus an empty partial frame inserted before every frame, every frame removed, every frame split in two, adjacent partial frames merged, and the same attribute of the negotiation ad rewritten (one value character, same length) in BOTH directions; oracle: after the handshake calls return, every endpoint that reported success sends " +
+		"plus an empty partial frame inserted before every frame, every frame removed, every frame split in two, adjacent partial frames merged, a non-empty partial frame (an altered copy of the frame's own payload) inserted before a frame, and the same attribute of the negotiation ad rewritten (one value character, same length) in BOTH directions; oracle: after the handshake calls return, every endpoint that reported success sends " +
 		"one application message and tries to read one -- no endpoint that reported success may ACCEPT an application message in a run where the relay changed a byte; the unmodified run must succeed and exchange messages both ways; " +
 		"non-trivial = the mutation really changed bytes of a frame both endpoints got far enough to exchange; distinct by (shape, direction, frame, offset, substitute)")
 	ev.Assume("a run that blocks (both ends waiting for bytes the relay's edit removed) is ended by an idle watchdog and counted inconclusive, never a violation")
@@ -158,6 +158,29 @@ func relay(dir int, src, dst *kit.BufConn, m Mut, rs *relayStats, mu *sync.Mutex
 						mu.Unlock()
 					}
 					out = [][]byte{nf}
+				}
+			case "insert-copy":
+				// a NON-EMPTY partial frame in front of the untouched frame: a copy of the frame's own payload minus
+				// its last byte, with one character changed (digit -> 0, letter -> Z). The reader concatenates both, so
+				// it may well parse the altered copy and ignore the rest; the sender sent only the original.
+				if body := f[5:]; len(body) >= 2 && m.Off < len(body)-1 {
+					cp := append([]byte(nil), body[:len(body)-1]...)
+					switch c := cp[m.Off]; {
+					case c >= '1' && c <= '9':
+						cp[m.Off] = '0'
+					case c == '0':
+						cp[m.Off] = '1'
+					case c == 'Z' || c == 'z':
+						cp[m.Off] = 'Y'
+					case (c >= 'A' && c <= 'Z') || (c >= 'a' && c <= 'z'):
+						cp[m.Off] = 'Z'
+					default:
+						cp[m.Off] ^= 0x01
+					}
+					out = [][]byte{kit.BuildFrame(0, cp), f}
+					mu.Lock()
+					rs.changed = true
+					mu.Unlock()
 				}
 			case "insert-empty":
 				out = [][]byte{{0, 0, 0, 0, 0}, f}
@@ -469,6 +492,15 @@ func TestC04Tamper(t *testing.T) {
 				}
 				for _, k := range []string{"insert-empty", "remove", "split", "merge"} {
 					cases = append(cases, Case{Shape: sh, M: Mut{Kind: k, Dir: dir, Frame: fi}})
+				}
+				if sh == "noauth" || sh == "claimtobe" || sh == "token" {
+					step := 7
+					if kit.Thorough() {
+						step = 2
+					}
+					for off := fi % step; off < fl-6; off += step {
+						cases = append(cases, Case{Shape: sh, M: Mut{Kind: "insert-copy", Dir: dir, Frame: fi, Off: off}})
+					}
 				}
 			}
 			// (a frame injected after the last cleartext frame lands in the protected phase of that
